@@ -284,6 +284,35 @@ pub fn policy_sets(tier: Tier, schema: &cedar_policy::Schema) -> Vec<(Vec<Pol>, 
         |l, _| E::bin(BinOp::Lt, E::Neg(b(l)), E::Long(0)),
         |l, _| E::bin(BinOp::ContainsAll, E::Set(vec![l, E::Long(0)]), E::Set(vec![E::Long(0)])),
     ];
+    // reflexive `in` on a self-recursive entity type, and set operations whose operands are
+    // (possibly empty) sets held by the store (after seeds C18-a)
+    {
+        let red = || E::Ent(Uid::new("Color", "red"));
+        let is_group = E::Is(b(rs.clone()), "Group".into());
+        let more: Vec<(AS, E)> = vec![
+            (AS::Eq(edit()), E::bin(BinOp::In, rs.clone(), E::Ent(gg()))),
+            (AS::Eq(edit()), E::bin(BinOp::In, rs.clone(), E::Set(vec![E::Ent(gg())]))),
+            (AS::Eq(edit()), E::and(is_group.clone(), E::bin(BinOp::In, rs.clone(), rs.clone()))),
+            (AS::Eq(edit()), E::and(is_group.clone(), E::not(E::bin(BinOp::In, rs.clone(), E::Ent(gg()))))),
+            (AS::Any, E::bin(BinOp::In, E::Ent(gg()), E::Ent(gg()))),
+            (AS::Eq(view()), E::and(E::has(pr.clone(), "cols"), E::bin(BinOp::ContainsAll, E::attr(pr.clone(), "cols"), E::Set(vec![red()])))),
+            (AS::Eq(view()), E::and(E::has(pr.clone(), "cols"), E::bin(BinOp::ContainsAll, E::Set(vec![red()]), E::attr(pr.clone(), "cols")))),
+            (AS::Eq(view()), E::and(E::has(pr.clone(), "cols"), E::bin(BinOp::ContainsAny, E::attr(pr.clone(), "cols"), E::Set(vec![red()])))),
+            (AS::Eq(view()), E::and(E::has(pr.clone(), "cols"), E::IsEmpty(b(E::attr(pr.clone(), "cols"))))),
+            (AS::Eq(view()), E::and(E::has(rs.clone(), "eds"), E::bin(BinOp::ContainsAll, E::attr(rs.clone(), "eds"), E::Set(vec![pr.clone()])))),
+            (AS::Eq(view()), E::and(E::has(rs.clone(), "eds"), E::bin(BinOp::ContainsAll, E::Set(vec![pr.clone(), E::Ent(ub())]), E::attr(rs.clone(), "eds")))),
+            (AS::Eq(view()), E::and(E::has(rs.clone(), "eds"), E::bin(BinOp::Contains, E::attr(rs.clone(), "eds"), pr.clone()))),
+            (AS::Eq(view()), E::and(E::has(rs.clone(), "eds"), E::bin(BinOp::In, pr.clone(), E::attr(rs.clone(), "eds")))),
+            (AS::Eq(view()), E::bin(BinOp::ContainsAll, E::attr(rs.clone(), "labels"), E::Set(vec![E::str("x"), E::str("y")]))),
+            (AS::Eq(view()), E::bin(BinOp::ContainsAll, E::Set(vec![E::str("x"), E::str("y")]), E::attr(rs.clone(), "labels"))),
+            (AS::Eq(view()), E::and(E::and(E::has(rs.clone(), "eds"), E::has(pr.clone(), "cols")), E::bin(BinOp::Eq, E::IsEmpty(b(E::attr(rs.clone(), "eds"))), E::IsEmpty(b(E::attr(pr.clone(), "cols")))))),
+        ];
+        for (i, (act, e)) in more.into_iter().enumerate() {
+            let mut p = Pol::simple(&format!("m{}", valid.len()), if i % 4 == 2 { Effect::Forbid } else { Effect::Permit }, Some(e));
+            p.action = act;
+            valid.push(p);
+        }
+    }
     // an entity mentioned ONLY at one operand position of one operator kind (after seed C15-a2:
     // the batched evaluator finds the entities to load by walking the residual)
     {
